@@ -62,6 +62,10 @@ def norm_discipline(rule, w, mn, q):
                 for i in U_POS[nm]:
                     if i < len(c.args) and isinstance(c.args[i], ast.Name):
                         utyped.setdefault(c.args[i].id, c)
+    # the right-hand side h of the cone inequalities is a cone-space vector by its documented role
+    params = pf.arg_names(fn)
+    if "h" in params and "dims" in params and "h" not in utyped:
+        utyped["h"] = fn
     n = 0
     for c in pf._scope_nodes(fn):
         if not isinstance(c, ast.Call):
@@ -82,8 +86,33 @@ def norm_discipline(rule, w, mn, q):
             rule.violation(key, m.where(c, fn),
                            "cone-space vector `%s` (used as such in `%s`) is reduced with a whole-vector %s: "
                            "the unreferenced upper triangles of its 's' blocks enter the result"
-                           % (hit[0], pf.norm_expr(utyped[hit[0]])[:60], nm),
+                           % (hit[0], pf.norm_expr(utyped[hit[0]])[:60] if not isinstance(utyped[hit[0]], ast.FunctionDef) else "documented argument h with dims", nm),
                            expected="misc.snrm2 / misc.sdot with dims", observed=m.seg(c))
     for v, c in utyped.items():
-        rule.ok("%s.%s:cone-vector %s" % (mn, q, v), m.where(c, fn), "typed by " + pf.norm_expr(c)[:60])
+        rule.ok("%s.%s:cone-vector %s" % (mn, q, v), m.where(c, fn), "typed by " + (pf.norm_expr(c)[:60] if not isinstance(c, ast.FunctionDef) else "its documented role"))
+    return n
+
+
+def cone_product_rule(rule, w, mn, q):
+    """In a solver that takes general cones (`dims`), the constraint matrix G - whose rows for
+    the 's' blocks are stored in 'L' format - is multiplied only through misc.sgemv (which
+    accounts for that storage), in both directions; never through base.gemv / blas.gemv."""
+    m = w.mods[mn]
+    fn = w.func(mn, q)
+    n = 0
+    for c in ast.walk(fn):
+        if not isinstance(c, ast.Call):
+            continue
+        nm = pf.call_name(c) or ""
+        if not nm.endswith("gemv") or not c.args or not (isinstance(c.args[0], ast.Name) and c.args[0].id == "G"):
+            continue
+        n += 1
+        tr = next((pf.norm_expr(k.value) for k in c.keywords if k.arg == "trans"), "'N'")
+        key = "%s.%s:product with G (trans=%s) @%s" % (mn, q, tr, pf.enclosing_function(c).name)
+        if nm == "misc.sgemv":
+            rule.ok(key, m.where(c, fn), "misc.sgemv")
+        else:
+            rule.violation(key, m.where(c, fn),
+                           "G is multiplied with %s instead of misc.sgemv: for 's' blocks in 'L' storage the product with the strictly upper "
+                           "triangular entries is lost (G'z) or spurious" % nm, "misc.sgemv(G, .., dims, ..)", pf.norm_expr(c)[:70])
     return n
